@@ -2,6 +2,13 @@ import TantivyModel.Proofs.AggAlgebra
 import TantivyModel.Proofs.AggSpecEq
 import TantivyModel.Proofs.AggTrunc
 import TantivyModel.Proofs.AggCut
+import TantivyModel.Proofs.AggExtStats
+import TantivyModel.Proofs.AggSpecPV
+import TantivyModel.Proofs.AggRange
+import TantivyModel.Proofs.AggCompTrim
+import TantivyModel.Proofs.AggKeyOrder
+import TantivyModel.Proofs.AggKeyDesc
+import TantivyModel.Proofs.AggEvict
 /-!
 # C14 — Aggregations equal a direct computation and do not depend on partitioning
 
@@ -169,6 +176,29 @@ theorem C14_direct_equals_partitioned (r : Req) (parts : List (List Doc)) (t : M
   rw [← h2, h1]
   exact finalize_collect r _ hok
 
+/-- **Hypothesis-free refinement.**  For EVERY request tree and EVERY document list — multi-valued
+documents with several values in one bucket included — collecting and finalising computes
+`evalAggPV`: the direct computation in which a histogram / range / composite bucket counts one per
+value and passes the document to the sub-request once per value. -/
+theorem C14_finalize_collect_eq_evalAggPV (r : Req) (docs : List Doc) :
+    finalize r (collect (M := M) r docs) = evalAggPV M r docs :=
+  finalize_collect_pv r docs
+
+/-- the per-value specification is the per-document specification exactly when no document has
+two values in one bucket -/
+theorem C14_evalAggPV_eq_evalAgg (r : Req) (docs : List Doc) (hok : ∀ d ∈ docs, DocOK r d) :
+    evalAggPV M r docs = evalAgg M r docs :=
+  evalAggPV_eq_evalAgg r docs hok
+
+/-- any partition, any merge schedule = the per-value direct computation, with no hypothesis on
+the documents (only the no-truncation guard of terms aggregations remains) -/
+theorem C14_partitioned_equals_evalAggPV (r : Req) (parts : List (List Doc)) (t : MTree (Inter M r))
+    (hleaves : t.leaves.Perm (parts.map (collectSeg r)))
+    (hno : ∀ p ∈ parts, harvest (M := M) r (collect r p) = collect r p) :
+    finalize r (t.eval (merge r) (empty r)) = evalAggPV M r parts.flatten := by
+  rw [(C14_partition_invariant r parts t hleaves hno).1]
+  exact finalize_collect_pv r _
+
 /-- without `DocOK` the statement is false, for the model as for the code: a document with the
 values 1 and 2 in one histogram bucket of width 10 is counted twice -/
 theorem C14_histogram_dup_counterexample :
@@ -210,6 +240,108 @@ theorem C14_single_segment_cut_exact {V : Type} (p : TermsP) (t : TermsI V) (hsz
     (sortBuckets p.order (termsCut p t).map.entries).take p.size
       = (sortBuckets p.order t.map.entries).take p.size :=
   termsCut_shown_eq p t hsz
+
+/-- **Terms ordered by `_key` ascending are exact under segment truncation.**  No guard on the
+number of distinct terms: every segment cuts to its first `segment_size` keys, and for every
+partition into any number of segments the returned buckets (keys, doc counts, sub-results) are
+those of the direct per-value computation.  Checked hypotheses: `size ≤ segment_size` (always true
+for `TermsP.ofRequest`, `C14_segment_size_ge_size`), `min_doc_count ≤ 1` (the cut happens before
+the `min_doc_count` filter), no terms node below (`cutFree`). -/
+theorem C14_terms_key_asc_exact_under_truncation (p : TermsP) (sub : Req) (ho : p.order = .keyAsc)
+    (hsz : p.size ≤ p.segSize) (hmdc : p.minDocCount ≤ 1) (hsub : sub.cutFree = true) (parts : List (List Doc)) :
+    (finalize (M := M) (.terms p sub) (mergeFruits (.terms p sub) (parts.map (collectSeg (.terms p sub))))).1
+      = (evalAggPV M (.terms p sub) parts.flatten).1 := by
+  rw [C14_mergeFruits_eq_fold]
+  have h := terms_keyAsc_exact (M := M) p sub ho hsz hmdc (harvest_of_cutFree sub hsub) parts
+  unfold mergedTerms at h
+  rw [h, finalize_collect_pv]
+
+/-- … and so is `sum_other_doc_count` (what the segments cut plus what the final `size` cut removes
+is exactly what the direct computation leaves out); only `doc_count_error_upper_bound` is then an
+over-estimate (the code reports the first cut count although no shown count can be wrong). -/
+theorem C14_terms_key_asc_other_exact_under_truncation (p : TermsP) (sub : Req) (ho : p.order = .keyAsc)
+    (hsz : p.size ≤ p.segSize) (hmdc : p.minDocCount ≤ 1) (hsub : sub.cutFree = true) (parts : List (List Doc)) :
+    (finalize (M := M) (.terms p sub) (mergeFruits (.terms p sub) (parts.map (collectSeg (.terms p sub))))).2.1
+      = (evalAggPV M (.terms p sub) parts.flatten).2.1 := by
+  rw [C14_mergeFruits_eq_fold]
+  have h := terms_keyAsc_other_exact (M := M) p sub ho hsz hmdc (harvest_of_cutFree sub hsub) parts
+  unfold mergedTerms at h
+  rw [h, finalize_collect_pv]
+
+/-- **Terms ordered by `_key` descending are exact under segment truncation** as well: every segment
+keeps its LAST `segment_size` keys; buckets and `sum_other_doc_count` of any number of truncated
+segments are those of the direct per-value computation (same checked hypotheses). -/
+theorem C14_terms_key_desc_exact_under_truncation (p : TermsP) (sub : Req) (ho : p.order = .keyDesc)
+    (hsz : p.size ≤ p.segSize) (hmdc : p.minDocCount ≤ 1) (hsub : sub.cutFree = true) (parts : List (List Doc)) :
+    (finalize (M := M) (.terms p sub) (mergeFruits (.terms p sub) (parts.map (collectSeg (.terms p sub))))).1
+        = (evalAggPV M (.terms p sub) parts.flatten).1
+      ∧ (finalize (M := M) (.terms p sub) (mergeFruits (.terms p sub) (parts.map (collectSeg (.terms p sub))))).2.1
+        = (evalAggPV M (.terms p sub) parts.flatten).2.1 := by
+  rw [C14_mergeFruits_eq_fold]
+  have h := terms_keyDesc_exact (M := M) p sub ho hsz hmdc (harvest_of_cutFree sub hsub) parts
+  unfold mergedTerms at h
+  rw [h.1, h.2, finalize_collect_pv]
+  exact ⟨rfl, rfl⟩
+
+/-- … for EVERY merge schedule (any order, any grouping — collector fold, distributed merge of
+intermediate results) of the truncated segment fruits, in both key directions -/
+theorem C14_terms_key_order_exact_any_schedule (p : TermsP) (sub : Req)
+    (ho : p.order = .keyAsc ∨ p.order = .keyDesc) (hsz : p.size ≤ p.segSize) (hmdc : p.minDocCount ≤ 1)
+    (hsub : sub.cutFree = true) (parts : List (List Doc)) (t : MTree (TermsI (Inter M sub)))
+    (hleaves : t.leaves.Perm (parts.map (collectSeg (.terms p sub)))) :
+    (finalize (M := M) (.terms p sub) (t.eval (merge (.terms p sub)) (empty (.terms p sub)))).1
+        = (evalAggPV M (.terms p sub) parts.flatten).1
+      ∧ (finalize (M := M) (.terms p sub) (t.eval (merge (.terms p sub)) (empty (.terms p sub)))).2.1
+        = (evalAggPV M (.terms p sub) parts.flatten).2.1 := by
+  have e : t.eval (merge (.terms p sub)) (empty (.terms p sub))
+      = mergeFruits (.terms p sub) (parts.map (collectSeg (.terms p sub))) := by
+    rw [MTree.eval_eq_fold (merge (.terms p sub)) (empty (.terms p sub)) (merge_assoc _) (merge_comm _) (empty_merge _),
+      foldl_op_perm (merge (.terms p sub)) (empty (.terms p sub)) (merge_assoc _) (merge_comm _) (empty_merge _) hleaves,
+      C14_mergeFruits_eq_fold]
+  rw [e]
+  rcases ho with ho | ho
+  · exact ⟨C14_terms_key_asc_exact_under_truncation p sub ho hsz hmdc hsub parts,
+      C14_terms_key_asc_other_exact_under_truncation p sub ho hsz hmdc hsub parts⟩
+  · exact C14_terms_key_desc_exact_under_truncation p sub ho hsz hmdc hsub parts
+
+/-- the hypothesis `min_doc_count ≤ 1` of the two theorems above is needed: the cut happens before the
+`min_doc_count` filter.  Segment 1 holds keys 1 (one document) and 2 (two documents) and keeps key 1
+only; segment 2 holds key 2 once.  With `min_doc_count = 2` the direct computation shows key 2 with
+three documents, the truncated segments show nothing (documented behaviour of the code, which the
+harness accepts: it checks only the bounds then). -/
+theorem C14_terms_key_order_min_doc_count_counterexample :
+    ∃ (p : TermsP) (parts : List (List Doc)), p.order = .keyAsc ∧ p.size ≤ p.segSize ∧ p.minDocCount = 2 ∧
+      (finalize (M := Int) (.terms p .none) (mergeFruits (.terms p .none) (parts.map (collectSeg (.terms p .none))))).1 = []
+      ∧ (evalAggPV Int (.terms p .none) parts.flatten).1 = [(2, 3, ())] :=
+  ⟨⟨0, Option.none, 1, 1, 2, .keyAsc⟩, [[[(0, [1, 2])], [(0, [2])]], [[(0, [2])]]], rfl, by decide, rfl,
+    by decide +kernel, by decide +kernel⟩
+
+/-- a segment may evict with ANY buffer of at least the page size: trimming to a larger page first is
+invisible in the page (the composite collector's buffer is exactly `size`, `termsCut` for `_key`
+order uses `segment_size ≥ size`) -/
+theorem C14_composite_trim_monotone {V : Type} {size n : Nat} (hle : size ≤ n) (after : Option Int)
+    (m : KMap (Nat × V)) : compTrim size after (compTrim n after m) = compTrim size after m :=
+  trim_trim_le hle after m
+
+/-- the same bounds for EVERY merge schedule (any order, any grouping) of the truncated segment
+fruits, not only for the collector's own fold -/
+theorem C14_terms_error_bound_any_schedule (p : TermsP) (sub : Req) (parts : List (List Doc))
+    (t : MTree (TermsI (Inter M sub)))
+    (hleaves : t.leaves.Perm (parts.map (collectSeg (.terms p sub)))) (U : List Int)
+    (hU : U.Nodup) (hcov : ∀ part ∈ parts, ∀ d ∈ part, ∀ k ∈ termKeys p d, k ∈ U) :
+    let H : TermsI (Inter M sub) := t.eval (merge (.terms p sub)) (empty (.terms p sub))
+    let true_ := fun k => (parts.flatten.filter (fun d => (termKeys p d).contains k)).length
+    (∀ k, cnt H.map k ≤ true_ k)
+      ∧ (p.order = .countDesc → ∀ k, true_ k ≤ cnt H.map k + H.err)
+      ∧ sumOver U (cnt H.map) + H.other = sumOver U true_ := by
+  intro H true_
+  have e : H = mergeFruits (.terms p sub) (parts.map (collectSeg (.terms p sub))) := by
+    show t.eval (merge (.terms p sub)) (empty (.terms p sub)) = _
+    rw [MTree.eval_eq_fold (merge (.terms p sub)) (empty (.terms p sub)) (merge_assoc _) (merge_comm _) (empty_merge _),
+      foldl_op_perm (merge (.terms p sub)) (empty (.terms p sub)) (merge_assoc _) (merge_comm _) (empty_merge _) hleaves,
+      C14_mergeFruits_eq_fold]
+  rw [e]
+  exact C14_terms_error_bound p sub parts U hU hcov
 
 /-- the final stage keeps the books as well: what the `size` cut removes goes to
 `sum_other_doc_count` (buckets below `min_doc_count` are dropped, as in the code) -/
@@ -261,6 +393,162 @@ theorem C14_composite_key_order (R d d' r r' : Int) (hr : 0 ≤ r ∧ r < R) (hr
       omega
     · subst he; omega
 
+/-! ### extended_stats: Welford / Chan over ℚ, and where sigma comes from -/
+
+/-- one segment: after the Welford updates of `collect` the accumulator holds exactly
+`count = n`, `sum = Σv`, `sum_of_squares = Σv²`, `mean = Σv/n` and `M2 = Σv² − (Σv)²/n`
+(`= Σ(v − mean)²`), for every list of values -/
+theorem C14_extstats_collect_direct (σ : ℚ) (xs : List ℚ) :
+    (ExtS.ofList σ xs).count = xs.length ∧ (ExtS.ofList σ xs).sum = xs.sum
+      ∧ (ExtS.ofList σ xs).q = sumSq xs ∧ (ExtS.ofList σ xs).m2 = extDirectM2 xs
+      ∧ (ExtS.ofList σ xs).mean = (if xs.length = 0 then 0 else xs.sum / (xs.length : ℚ)) := by
+  have h := ExtS.describes_ofList σ xs
+  exact ⟨h.count, h.sum, h.q, by rw [h.m2]; rfl, h.mean⟩
+
+/-- Chan's parallel merge (`merge_fruits`) of two segments = the direct computation over the
+concatenated values, including the cases where one side is empty -/
+theorem C14_extstats_chan_merge (σ τ : ℚ) (xs ys : List ℚ) :
+    (ExtS.merge (ExtS.ofList σ xs) (ExtS.ofList τ ys)).count = (xs ++ ys).length
+      ∧ (ExtS.merge (ExtS.ofList σ xs) (ExtS.ofList τ ys)).sum = (xs ++ ys).sum
+      ∧ (ExtS.merge (ExtS.ofList σ xs) (ExtS.ofList τ ys)).q = sumSq (xs ++ ys)
+      ∧ (ExtS.merge (ExtS.ofList σ xs) (ExtS.ofList τ ys)).m2 = extDirectM2 (xs ++ ys) := by
+  have h := ExtS.describes_merge (ExtS.describes_ofList σ xs) (ExtS.describes_ofList τ ys)
+  refine ⟨by rw [h.count, List.length_append], by rw [h.sum, List.sum_append],
+    by rw [h.q]; simp [sumSq, List.map_append, List.sum_append], ?_⟩
+  rw [h.m2]
+  simp only [extDirectM2, List.length_append, List.sum_append, List.map_append, sumSq]
+
+/-- **Any partition, any merge schedule, placeholders anywhere.**  `t` is an arbitrary schedule of
+`merge_fruits` calls over per-segment value lists; a leaf without values and the absence of any
+fruit are `empty_from_req` placeholders that carry the DEFAULT sigma 2 — also as the left
+operand of a merge (the situation of the seeded change C14-D).  The result has the count, sum,
+sum of squares, mean and M2 of the direct computation over all values, and as soon as there is
+one value it carries the REQUEST's sigma: a placeholder's sigma never survives. -/
+theorem C14_extstats_any_schedule (σ : ℚ) (t : MTree (List ℚ)) :
+    let r := extTreePlaceholders σ t
+    let all := t.leaves.flatten
+    r.count = all.length ∧ r.sum = all.sum ∧ r.q = sumSq all ∧ r.m2 = extDirectM2 all
+      ∧ r.mean = (ExtS.ofList σ all).mean ∧ (all ≠ [] → r.sigma = σ) := by
+  intro r all
+  have h := extTreePlaceholders_describes σ t
+  have h2 := ExtS.describes_ofList σ all
+  refine ⟨h.count, h.sum, h.q, by rw [h.m2]; rfl, (h.numeric_eq h2).2.2.2.1, ?_⟩
+  intro hne
+  apply extTreePlaceholders_good σ t
+  rw [h.count]
+  intro h0
+  exact hne (List.length_eq_zero_iff.1 h0)
+
+/-- **Composite: the per-segment eviction is invisible.**  The composite collector keeps per
+segment only the first `size` buckets after the `after` key (`collect_bucket_with_limit` evicts
+the highest key; `merge_fruits` trims again).  For every partition into any number of segments
+the page returned from the trimmed fruits is the page returned from the untrimmed ones — hence,
+with `C14_finalize_collect_eq_evalAggPV` and `C14_collect_append`, the direct computation. -/
+theorem C14_composite_eviction_invisible (srcs : List CompSrc) (size : Nat) (after : Option Int) (sub : Req)
+    (parts : List (List Doc)) :
+    finalize (M := M) (.composite srcs size after sub)
+        ((parts.map (collectSegComposite (M := M) srcs size after sub)).foldl
+          (merge (.composite srcs size after sub)) (empty (.composite srcs size after sub)))
+      = evalAggPV M (.composite srcs size after sub) parts.flatten := by
+  have h := composite_eviction_invisible (M := M) srcs size after sub parts
+  have h2 : (parts.map (collect (M := M) (.composite srcs size after sub))).foldl
+      (merge (.composite srcs size after sub)) (empty (.composite srcs size after sub))
+      = collect (.composite srcs size after sub) parts.flatten :=
+    fold_parts (merge (.composite srcs size after sub)) (empty (.composite srcs size after sub)) (merge_assoc _)
+      (merge_comm _) (empty_merge _) (collect (.composite srcs size after sub)) (collect_nil _) (collect_append _) parts
+  show finalize (M := M) (.composite srcs size after sub)
+      ((parts.map (fun p => compTrim size after (collect (M := M) (.composite srcs size after sub) p))).foldl _ _) = _
+  rw [h, h2]
+  exact finalize_collect_pv _ _
+
+/-- **Composite: neither the per-segment eviction nor the merge-time trim is visible.**  The
+segments evict (`collectSegComposite`) and `merge_fruits` trims whenever more than `2 * size`
+entries are held (`compMergeFruits`); for every partition into any number of segments the returned
+page is the direct computation over all documents. -/
+theorem C14_composite_merge_fruits_eq_evalAggPV (srcs : List CompSrc) (size : Nat) (after : Option Int) (sub : Req)
+    (parts : List (List Doc)) :
+    finalize (M := M) (.composite srcs size after sub)
+        ((parts.map (collectSegComposite (M := M) srcs size after sub)).foldl
+          (compMergeFruits (entryMerge (merge (M := M) sub)) size after) KMap.empty)
+      = evalAggPV M (.composite srcs size after sub) parts.flatten := by
+  have h := composite_lazy_trim_invisible (M := M) (sub := sub)
+    (fun m => decide (m.entries.length > 2 * size)) srcs size after parts
+  have h2 : (parts.map (collect (M := M) (.composite srcs size after sub))).foldl
+      (merge (.composite srcs size after sub)) (empty (.composite srcs size after sub))
+      = collect (.composite srcs size after sub) parts.flatten :=
+    fold_parts (merge (.composite srcs size after sub)) (empty (.composite srcs size after sub)) (merge_assoc _)
+      (merge_comm _) (empty_merge _) (collect (.composite srcs size after sub)) (collect_nil _) (collect_append _) parts
+  rw [compMergeFruits_eq_when]
+  show finalize (M := M) (.composite srcs size after sub)
+      ((parts.map (fun p => compTrim size after (collect (M := M) (.composite srcs size after sub) p))).foldl _ _) = _
+  rw [h, h2]
+  exact finalize_collect_pv _ _
+
+/-- the same for ANY trimming schedule at merge time (trim decided by an arbitrary predicate) -/
+theorem C14_composite_any_trim_schedule {sub : Req} (dec : KMap (Nat × Inter M sub) → Bool) (srcs : List CompSrc) (size : Nat)
+    (after : Option Int) (parts : List (List Doc)) :
+    finalize (M := M) (.composite srcs size after sub)
+        ((parts.map (collectSegComposite (M := M) srcs size after sub)).foldl
+          (compMergeWhen dec (entryMerge (merge (M := M) sub)) size after) KMap.empty)
+      = evalAggPV M (.composite srcs size after sub) parts.flatten := by
+  have h := composite_lazy_trim_invisible (M := M) (sub := sub) dec srcs size after parts
+  have h2 : (parts.map (collect (M := M) (.composite srcs size after sub))).foldl
+      (merge (.composite srcs size after sub)) (empty (.composite srcs size after sub))
+      = collect (.composite srcs size after sub) parts.flatten :=
+    fold_parts (merge (.composite srcs size after sub)) (empty (.composite srcs size after sub)) (merge_assoc _)
+      (merge_comm _) (empty_merge _) (collect (.composite srcs size after sub)) (collect_nil _) (collect_append _) parts
+  show finalize (M := M) (.composite srcs size after sub)
+      ((parts.map (fun p => compTrim size after (collect (M := M) (.composite srcs size after sub) p))).foldl _ _) = _
+  rw [h, h2]
+  exact finalize_collect_pv _ _
+
+/-- **Composite eviction ANYWHERE in the request tree is invisible.**  `evict` applies the
+per-segment eviction at every composite node of the intermediate tree — below terms, histogram,
+range, filter nodes, in every parent bucket, composites below composites.  For every request tree
+and every partition into any number of segments the final result of the merged evicted fruits is
+the direct per-value computation.  (Proof: observational equality `∀ z, finalize (merge x z) =
+finalize (merge y z)` is a right congruence by associativity; induction over the request tree.) -/
+theorem C14_composite_eviction_invisible_anywhere (r : Req) (parts : List (List Doc)) :
+    finalize r ((parts.map (collectSegEvict (M := M) r)).foldl (merge r) (empty r))
+      = evalAggPV M r parts.flatten := by
+  rw [evict_invisible, finalize_collect_pv]
+
+/-- … for every merge schedule of the evicted fruits -/
+theorem C14_composite_eviction_invisible_any_schedule (r : Req) (parts : List (List Doc)) (t : MTree (Inter M r))
+    (hleaves : t.leaves.Perm (parts.map (collectSegEvict (M := M) r))) :
+    finalize r (t.eval (merge r) (empty r)) = evalAggPV M r parts.flatten := by
+  rw [MTree.eval_eq_fold (merge r) (empty r) (merge_assoc r) (merge_comm r) (empty_merge r),
+    foldl_op_perm (merge r) (empty r) (merge_assoc r) (merge_comm r) (empty_merge r) hleaves]
+  exact C14_composite_eviction_invisible_anywhere r parts
+
+/-- **The complete segment model** (terms cut AND composite eviction, `collectSegFull`): for every
+request tree, every partition and every merge schedule the final result is the direct per-value
+computation, provided no segment truncated a terms node (the guard of `C14_partition_invariant`;
+sufficient: `C14_noTrunc_of_small`; key-ordered terms need no guard:
+`C14_terms_key_order_exact_any_schedule`; otherwise the bounds of `C14_terms_error_bound`). -/
+theorem C14_full_segment_model_exact (r : Req) (parts : List (List Doc)) (t : MTree (Inter M r))
+    (hleaves : t.leaves.Perm (parts.map (collectSegFull (M := M) r)))
+    (hno : ∀ p ∈ parts, harvest (M := M) r (collect r p) = collect r p) :
+    finalize r (t.eval (merge r) (empty r)) = evalAggPV M r parts.flatten := by
+  have hseg : parts.map (collectSegFull (M := M) r) = parts.map (collectSegEvict r) :=
+    List.map_congr_left (fun p hp => by
+      show evict r (harvest r (collect r p)) = evict r (collect r p)
+      rw [hno p hp])
+  rw [hseg] at hleaves
+  exact C14_composite_eviction_invisible_any_schedule r parts t hleaves
+
+/-- the observational core: an evicted fruit behaves like the original one in every merge -/
+theorem C14_evict_observationally_equal (r : Req) (x z : Inter M r) (hx : WS r x) (hz : WS r z) :
+    finalize r (merge r (evict r x) z) = finalize r (merge r x z) :=
+  evict_obs r x z hx hz
+
+/-- the algebraic core: trimming the operands first does not change the trimmed merge -/
+theorem C14_composite_trim_merge {V : Type} (f : (Nat × V) → (Nat × V) → (Nat × V)) (size : Nat)
+    (after : Option Int) (a b : KMap (Nat × V)) (ha : Supp a) (hb : Supp b) :
+    compTrim size after (KMap.merge f (compTrim size after a) (compTrim size after b))
+      = compTrim size after (KMap.merge f a b) :=
+  trim_merge f size after a b ha hb
+
 /-- merging after a serialisation round trip that is the identity on intermediate trees gives
 the same result (that postcard's round trip *is* the identity is tested by the harness, not
 proved) -/
@@ -289,6 +577,28 @@ theorem C14_histogram_bucket (interval offset v p : Int) (hI : 0 < interval) :
     have a2 : (v - offset) / interval < p + 1 := (Int.ediv_lt_iff_lt_mul hI).2 (by omega)
     omega
 
+/-- the bucket position does not depend on the unit: scaling interval, offset and value by the
+same positive factor (milliseconds → nanoseconds in `normalize_date_time`, which the
+date_histogram and a histogram on a date column apply) leaves `⌊(v − offset)/interval⌋` unchanged -/
+theorem C14_histogram_unit_invariant (interval offset v s : Int) (hs : 0 < s) (_hI : 0 < interval) :
+    histPos (interval * s) (offset * s) (v * s) = histPos interval offset v := by
+  unfold histPos
+  have : v * s - offset * s = (v - offset) * s := by rw [Int.sub_mul]
+  rw [this]
+  exact Int.mul_ediv_mul_of_pos_left (v - offset) interval hs
+
+/-- gap filling reports exactly the positions between the smallest and the largest one needed:
+with neither extended nor hard bounds, `p` is reported iff it lies inside the hull of the
+non-empty buckets -/
+theorem C14_histogram_gap_filling (p : HistP) (hull : Option (Int × Int)) (hext : p.ext = Option.none)
+    (hhard : p.hard = Option.none) (k : Int) :
+    k ∈ histSpan p hull ↔ inHull hull k := by
+  unfold histSpan
+  simp only [hext, hhard]
+  cases hull with
+  | none => simp [inHull]
+  | some q => obtain ⟨lo, hi⟩ := q; simp [inHull, mem_intSpan]
+
 /-- every value lands in exactly one range bucket: for sorted cut points `rangeIdx` is the
 unique index `i` such that the cuts before `i` are `≤ v` and those from `i` on are `> v`, i.e.
 `cuts[i-1] ≤ v < cuts[i]` with open ends -/
@@ -313,6 +623,21 @@ theorem C14_range_bucket (cuts : List Int) (hs : cuts.Pairwise (· < ·)) (v : I
       List.filter_eq_nil_iff.2 (fun a ha => by have := h2 a ha; simp; omega)
     rw [e1, e2, List.length_take]
     simp; omega
+
+/-- **The cut points of a range request are derived, not assumed.**  `normRanges` mirrors
+`extend_validate_ranges` (sort by start, extend to the whole line, reject overlaps, turn holes into
+buckets).  When it accepts a request whose ranges are non-empty, the resulting buckets are
+contiguous and non-empty, every user range is exactly one of them, and the interior boundaries
+are strictly increasing — which is the hypothesis of `C14_range_bucket`: every value then lands
+in exactly one bucket of the normalised request. -/
+theorem C14_range_request_normalised (rs : List (Option Int × Option Int)) (bs : List ERange)
+    (h : normRanges rs = some bs)
+    (hne : ∀ r ∈ rs, EInt.lt (toERange r).1 (toERange r).2 = true) :
+    (cutsOf bs).Pairwise (· < ·) ∧ (∀ r ∈ rs, toERange r ∈ bs) ∧ Contig bs
+      ∧ (∀ v i, rangeIdx (cutsOf bs) v = i ↔
+          i ≤ (cutsOf bs).length ∧ (∀ c ∈ (cutsOf bs).take i, c ≤ v) ∧ (∀ c ∈ (cutsOf bs).drop i, v < c)) := by
+  obtain ⟨h1, h2, h3, _⟩ := normRanges_ok rs bs h hne
+  exact ⟨h1, h2, h3, fun v i => C14_range_bucket (cutsOf bs) h1 v i⟩
 
 /-! ### limits -/
 
@@ -346,6 +671,7 @@ example : (evalAgg Int exReq (exDocs1 ++ exDocs2)).1.1.map (fun b => (b.1, b.2.1
   decide +kernel
 example : (finalize (M := Int) exReq (merge exReq (collectSeg exReq exDocs1) (collectSeg exReq exDocs2))).2.map
     (fun b => (b.1, b.2.1)) = [(-1, 1), (0, 2), (1, 0), (2, 1)] := by decide +kernel
+example : histPos (60000 * 1000000) 0 (1600000000123 * 1000000) = histPos 60000 0 1600000000123 := by decide
 example : histPos 10 0 (-5) = -1 ∧ histPos 10 3 13 = 1 ∧ histPos 10 3 12 = 0 := by decide
 example : rangeIdx [0, 10, 20] 10 = 2 ∧ rangeIdx [0, 10, 20] (-1) = 0 ∧ rangeIdx [0, 10, 20] 25 = 3 := by
   decide
@@ -363,6 +689,65 @@ example : compKeys [⟨0, 3, false⟩, ⟨1, 2, true⟩] [(0, [0, 2]), (1, [1])]
 example : evalAgg Int (.composite [⟨0, 3, false⟩, ⟨1, 2, true⟩] 2 (some 0) .none)
     [[(0, [0, 2]), (1, [1])], [(0, [2]), (1, [0, 1])], [(0, [1])]] = [(4, 2, ()), (5, 1, ())] := by
   decide +kernel
+/-- placeholder (default sigma 2) as the LEFT operand, request sigma 3: the merged result carries 3 -/
+example : (extTreePlaceholders 3 (.node (.leaf []) (.leaf [1, 2, 3, 4]))).sigma = 3
+    ∧ (extTreePlaceholders 3 (.node (.leaf []) (.leaf [1, 2, 3, 4]))).m2 = 5 := by
+  constructor
+  · exact (C14_extstats_any_schedule 3 (.node (.leaf []) (.leaf [1, 2, 3, 4]))).2.2.2.2.2 (by simp [MTree.leaves])
+  · rw [(C14_extstats_any_schedule 3 (.node (.leaf []) (.leaf [1, 2, 3, 4]))).2.2.2.1]
+    norm_num [extDirectM2, MTree.leaves]
+/-- the document with the values 1 and 2 in one histogram bucket: the per-value specification says 2 -/
+example : evalAggPV Int (.hist ⟨0, 10, 0, 0, Option.none, Option.none⟩ .none) [[(0, [1, 2])]] = [(0, 2, ())] := by
+  decide +kernel
+/-- a request with a gap and two open ends: five buckets, cuts 0, 10, 20, 30; an overlap is rejected -/
+example : (normRanges [(some 20, some 30), (some 0, some 10)]).map cutsOf = some [0, 10, 20, 30] := by decide
+example : normRanges [(some 0, some 10), (some 5, some 20)] = Option.none := by decide
+example : ∀ r ∈ [((some 20 : Option Int), (some 30 : Option Int)), (some 0, some 10)], EInt.lt (toERange r).1 (toERange r).2 = true := by decide
+/-- two segments with page size 1: each keeps only its smallest key, the merged page is still the global one -/
+example : finalize (M := Int) (.composite [⟨0, 5, false⟩] 1 Option.none .none)
+    (([[[(0, [3])], [(0, [1])]], [[(0, [2])], [(0, [1])]]].map
+        (collectSegComposite (M := Int) [⟨0, 5, false⟩] 1 Option.none .none)).foldl
+      (merge (.composite [⟨0, 5, false⟩] 1 Option.none .none)) (empty _)) = [(1, 2, ())] := by decide +kernel
+/-- three segments with page size 1 and values 3,2,1 / 5,4 / 0: the merge-time trim fires (3 > 2·1 entries) -/
+example : finalize (M := Int) (.composite [⟨0, 9, false⟩] 1 Option.none .none)
+    (([[[(0, [3, 2])]], [[(0, [5, 4])]], [[(0, [0])]]].map
+        (collectSegComposite (M := Int) [⟨0, 9, false⟩] 1 Option.none .none)).foldl
+      (compMergeFruits (entryMerge (merge (M := Int) .none)) 1 Option.none) KMap.empty) = [(0, 1, ())] := by decide +kernel
+/-- two segments, each cut to one key (segment_size 1): keys {1,3} and {1,2}; the first bucket is exact -/
+example : (finalize (M := Int) (.terms ⟨0, Option.none, 1, 1, 1, .keyAsc⟩ .none)
+    (mergeFruits (.terms ⟨0, Option.none, 1, 1, 1, .keyAsc⟩ .none)
+      ([[[(0, [3])], [(0, [1])]], [[(0, [2])], [(0, [1])]]].map
+        (collectSeg (M := Int) (.terms ⟨0, Option.none, 1, 1, 1, .keyAsc⟩ .none))))).1 = [(1, 2, ())] := by decide +kernel
+/-- same two cut segments: one bucket shown, the three other term occurrences are all in sum_other_doc_count, error bound 2 -/
+example : (finalize (M := Int) (.terms ⟨0, Option.none, 1, 1, 1, .keyAsc⟩ .none)
+    (mergeFruits (.terms ⟨0, Option.none, 1, 1, 1, .keyAsc⟩ .none)
+      ([[[(0, [3])], [(0, [1])]], [[(0, [2])], [(0, [1])]]].map
+        (collectSeg (M := Int) (.terms ⟨0, Option.none, 1, 1, 1, .keyAsc⟩ .none))))).2 = (2, 2) := by decide +kernel
+/-- descending: keys {1,3} and {1,2}, each segment keeps its largest key; the shown bucket is key 3 (count 1), 3 others -/
+example : finalize (M := Int) (.terms ⟨0, Option.none, 1, 1, 1, .keyDesc⟩ .none)
+    (mergeFruits (.terms ⟨0, Option.none, 1, 1, 1, .keyDesc⟩ .none)
+      ([[[(0, [3])], [(0, [1])]], [[(0, [2])], [(0, [1])]]].map
+        (collectSeg (M := Int) (.terms ⟨0, Option.none, 1, 1, 1, .keyDesc⟩ .none)))) = ([(3, 1, ())], 3, 2) := by decide +kernel
+/-- a schedule that merges the second cut segment into the first: same exact result -/
+example : finalize (M := Int) (.terms ⟨0, Option.none, 1, 1, 1, .keyDesc⟩ .none)
+    ((MTree.node (.leaf (collectSeg (M := Int) (.terms ⟨0, Option.none, 1, 1, 1, .keyDesc⟩ .none) [[(0, [2])], [(0, [1])]]))
+        (.leaf (collectSeg (M := Int) (.terms ⟨0, Option.none, 1, 1, 1, .keyDesc⟩ .none) [[(0, [3])], [(0, [1])]]))).eval
+      (merge (.terms ⟨0, Option.none, 1, 1, 1, .keyDesc⟩ .none)) (empty _)) = ([(3, 1, ())], 3, 2) := by decide +kernel
+set_option synthInstance.maxSize 1024 in
+/-- composite (page size 1) below a terms bucket, two segments: each evicts to its smallest source value (1 resp. 0) -/
+example : @Eq (List (Int × Nat × List (Int × Nat × Unit)) × Nat × Nat) (finalize (M := Int) (.terms ⟨1, Option.none, 10, 10, 1, .keyAsc⟩ (.composite [⟨0, 9, false⟩] 1 Option.none .none))
+    (([[[(1, [7]), (0, [3])], [(1, [7]), (0, [1])]], [[(1, [7]), (0, [2])], [(1, [7]), (0, [0])]]].map
+        (collectSegEvict (M := Int) (.terms ⟨1, Option.none, 10, 10, 1, .keyAsc⟩ (.composite [⟨0, 9, false⟩] 1 Option.none .none)))).foldl
+      (merge _) (empty _))) ([(7, 4, [(0, 1, ())])], 0, 0) := by decide +kernel
+set_option synthInstance.maxSize 1024 in
+/-- the complete segment model on the same corpus (no terms cut: 1 distinct term ≤ segment_size 10) -/
+example : @Eq (List (Int × Nat × List (Int × Nat × Unit)) × Nat × Nat) (finalize (M := Int) (.terms ⟨1, Option.none, 10, 10, 1, .keyAsc⟩ (.composite [⟨0, 9, false⟩] 1 Option.none .none))
+    ((MTree.node (.leaf (collectSegFull (M := Int) (.terms ⟨1, Option.none, 10, 10, 1, .keyAsc⟩ (.composite [⟨0, 9, false⟩] 1 Option.none .none))
+          [[(1, [7]), (0, [3])], [(1, [7]), (0, [1])]]))
+        (.leaf (collectSegFull (M := Int) (.terms ⟨1, Option.none, 10, 10, 1, .keyAsc⟩ (.composite [⟨0, 9, false⟩] 1 Option.none .none))
+          [[(1, [7]), (0, [2])], [(1, [7]), (0, [0])]]))).eval (merge _) (empty _))) ([(7, 4, [(0, 1, ())])], 0, 0) := by decide +kernel
+example : (compTrim 1 Option.none (compTrim 2 Option.none (KMap.merge (fun a _ => a) (KMap.single 3 (1, ()))
+    (KMap.merge (fun a _ => a) (KMap.single 1 (1, ())) (KMap.single 2 (1, ())))))).entries = [(1, 1, ())] := by decide +kernel
 example : [0, 10, 20].Pairwise (fun a b : Int => a < b) := by decide
 example : ([1, 2, 3] : List Int).Nodup ∧ ∀ d ∈ exTDocs, ∀ k ∈ termKeys ⟨0, Option.none, 2, 2, 1, .countDesc⟩ d, k ∈ [1, 2, 3] := by
   decide
